@@ -24,6 +24,7 @@ SPECS = {
     "Lag": dict(args=dict(u="u", T="T", K="K", D="D"), params=dict(T=GRID2 + [Fr(0)], K=[Fr(2), Fr(-1, 3)], D=[Fr(1), Fr(3, 2)]), out="y"),
     "LeadLag": dict(args=dict(u="u", T1="T1", T2="T2", K="K"), params=dict(T1=[Fr(0), Fr(1, 2), Fr(3)], T2=[Fr(0), Fr(2), Fr(1, 4)], K=[Fr(1), Fr(5, 2)]), out="y"),
     "Washout": dict(args=dict(u="u", T="T", K="K"), params=dict(T=GRID2, K=[Fr(2), Fr(-1, 3)]), out="y"),
+    "WashoutOrLag": dict(args=dict(u="u", T="T", K="K", name="B"), params=dict(T=GRID2, K=[Fr(2), Fr(-1, 3), Fr(0)]), out="y"),
     "Lag2ndOrd": dict(args=dict(u="u", K="K", T1="T1", T2="T2"), params=dict(K=[Fr(2), Fr(-1, 3)], T1=GRID2, T2=[Fr(1, 5), Fr(3)]), out="y"),
     "LeadLag2ndOrd": dict(args=dict(u="u", T1="T1", T2="T2", T3="T3", T4="T4"), params=dict(T1=GRID2, T2=[Fr(1, 5), Fr(3)], T3=[Fr(0), Fr(2, 3)], T4=[Fr(0), Fr(7, 4)]), out="y"),
     "PIController": dict(args=dict(u="u", kp="kp", ki="ki", ref="ref", x0="x0"), params=dict(kp=GRID2, ki=[Fr(2), Fr(1, 3)], ref=[Fr(0), Fr(4, 3)], x0=[Fr(0), Fr(1, 2)]), out="y"),
